@@ -2695,6 +2695,11 @@ int KSI_ExtendResp_verifyWithRequest(const KSI_ExtendResp *resp, const KSI_Exten
 		goto cleanup;
 	}
 
+	if (resp->status == NULL) {
+		KSI_pushError(resp->ctx, res = KSI_INVALID_FORMAT, "Extender response does not contain a status code.");
+		goto cleanup;
+	}
+
 	if (!KSI_Integer_equalsUInt(resp->status, 0)) {
 		KSI_pushError(resp->ctx, res = KSI_convertExtenderStatusCode(resp->status), KSI_Utf8String_cstr(resp->errorMsg));
 		goto cleanup;
